@@ -24,221 +24,163 @@ func (cx *Ctx) reasonConsts(rule string) (add, del, upd int64, ok bool) {
 	return add, del, upd, o1 && o2 && o3
 }
 
-// ruleC05RunTask: the replay handler applies each task kind completely to both policies.
+// accessorTerm: the term a trivial field accessor (task.node, task.oldNode) yields for receiver term recv.
+func accessorTerm(fn *ssa.Function, recv string) string {
+	var out string
+	allInstrs(fn, func(in ssa.Instruction) {
+		if r, ok := in.(*ssa.Return); ok && len(r.Results) == 1 {
+			if f := fieldOf(r.Results[0]); f != nil && stripLoad(r.Results[0]) != r.Results[0] {
+				out = "load(" + recv + "." + fname(f) + ")"
+			}
+		}
+	})
+	return out
+}
+
+// ruleC05RunTask: the replay handler applies each task kind completely to both policies. Decided on the path summaries
+// of runTask (helpers it delegates a case to are inlined), so the shape of the switch is free.
 func ruleC05RunTask(cx *Ctx) {
 	const rule = "C05.runTask"
-	cx.R.Rule(rule, 12, "runTask: exhaustive reason switch; add schedules expiry only for alive nodes and adds to the eviction policy; update unschedules old, schedules new if alive, transplants in the policy, reports old; delete removes from both and reports; every case releases the task")
-	fn := cx.need(rule, "", "cache", "runTask")
+	cx.R.Rule(rule, 4, "runTask: exhaustive reason switch; add schedules expiry only for alive nodes and adds to the eviction policy; update unschedules old, schedules new if alive, transplants in the policy, reports old; delete removes from both and reports; every case releases the task")
 	wr := cx.needField(rule, "", "task", "writeReason")
 	dc := cx.needField(rule, "", "task", "deletionCause")
-	expAdd := cx.need(rule, expPkg, "Variable", "Add")
-	expDel := cx.need(rule, expPkg, "Variable", "Delete")
-	pAdd := cx.need(rule, "", "policy", "add")
-	pUpd := cx.need(rule, "", "policy", "update")
-	pDel := cx.need(rule, "", "policy", "delete")
-	notify := cx.need(rule, "", "cache", "notifyDeletion")
 	nodeF := cx.need(rule, "", "task", "node")
 	oldF := cx.need(rule, "", "task", "oldNode")
 	evict := cx.need(rule, "", "cache", "evictNode")
 	addR, delR, updR, ok := cx.reasonConsts(rule)
-	if fn == nil || wr == nil || dc == nil || expAdd == nil || expDel == nil || pAdd == nil || pUpd == nil || pDel == nil || notify == nil || nodeF == nil || oldF == nil || evict == nil || !ok {
+	r := cx.runOp(rule, opSpec{"runTask", "cache", "runTask", nil, "runTask", nil})
+	if r == nil || wr == nil || dc == nil || nodeF == nil || oldF == nil || evict == nil || !ok {
 		return
 	}
+	fn := r.fn
 	name := funcName(fn)
-	caseOf := func(b *ssa.BasicBlock) int64 {
-		for _, g := range guardsAt(b) {
-			if x, c, isEq, ok := eqConst(g.Cond); ok && isEq && g.Truth && sameField(fieldOf(x), wr) {
-				return c
-			}
-		}
-		return -1
+	t := "param:" + pname(fn.Params[1])
+	n, old := accessorTerm(nodeF, t), accessorTerm(oldF, t)
+	if n == "" || old == "" || n == old {
+		cx.R.Undecided(rule, name, "task accessors", cx.P.Pos(fn.Pos()), "task.node / task.oldNode are no longer plain field accessors")
+		return
 	}
-	seen := map[int64]bool{}
-	allInstrs(fn, func(in ssa.Instruction) {
-		if b, ok := in.(*ssa.BinOp); ok {
-			if x, c, isEq, ok := eqConst(b); ok && isEq && sameField(fieldOf(x), wr) {
-				seen[c] = true
+	reasonT := "load(" + t + "." + fname(wr) + ")"
+	causeT := "load(" + t + "." + fname(dc) + ")"
+	names := map[int64]string{addR: "add", updR: "update", delR: "delete"}
+	a := newAgg(cx, rule, name, cx.P.Pos(fn.Pos()))
+	seen := map[int64]int{}
+	for _, o := range r.outs {
+		if o.Cut {
+			continue
+		}
+		if isNil, k := predOf(o, "IsNil("+t+")"); k && isNil {
+			a.check("nil task ignored", len(o.S.trace) == 0 && !o.Panic, "the nil task has no effect", fmt.Sprint(traceStrings(o)), o)
+			continue
+		}
+		reason := int64(-1)
+		for _, c := range []int64{addR, updR, delR} {
+			if v, k := predOf(o, fmt.Sprintf("Eq(%s,const(%d))", reasonT, c)); k && v {
+				reason = c
 			}
 		}
-	})
-	cx.R.Check(seen[addR] && seen[delR] && seen[updR], rule, name, "exhaustive", cx.P.Pos(fn.Pos()), "the reason switch handles add, update and delete")
-	// node roles
-	var nNode, nOld ssa.Value
-	allInstrs(fn, func(in ssa.Instruction) {
-		if c, ok := in.(*ssa.Call); ok {
-			if isCallTo(c, nodeF) {
-				nNode = c
-			}
-			if isCallTo(c, oldF) {
-				nOld = c
-			}
+		if reason < 0 {
+			a.check("unknown reason rejected", o.Panic && len(allEvents(o, "ExpAdd"))+len(allEvents(o, "ExpDelete"))+len(allEvents(o, "PolicyAdd"))+len(allEvents(o, "PolicyDelete"))+len(allEvents(o, "PolicyUpdate")) == 0, "a task with an unknown reason touches no policy (it panics)", fmt.Sprint(traceStrings(o)), o)
+			continue
 		}
-	})
-	flagGuard := func(b *ssa.BasicBlock, flag string, want bool) bool {
-		for _, g := range guardsAt(b) {
-			if f := fieldOf(g.Cond); f != nil && f.Name() == flag && stripLoad(g.Cond) != g.Cond && g.Truth == want {
-				return true
+		seen[reason]++
+		cs := "case " + names[reason] + ": "
+		wX, kX := flagOf(o, "withExpiration")
+		wE, kE := flagOf(o, "withEviction")
+		alive, kA := predOf(o, "Alive("+n+")")
+		cnt := func(kind string, args ...string) (match, total int) {
+			for _, e := range allEvents(o, kind) {
+				total++
+				okArgs := len(e.Args) >= len(args)
+				for i := range args {
+					if okArgs && args[i] != "*" && e.Args[i] != args[i] {
+						okArgs = false
+					}
+				}
+				if okArgs {
+					match++
+				}
 			}
-		}
-		return false
-	}
-	aliveGuard := func(b *ssa.BasicBlock, n ssa.Value) bool {
-		for _, g := range guardsAt(b) {
-			if c, ok := g.Cond.(*ssa.Call); ok && invokeName(c) == "IsAlive" && c.Call.Value == n && g.Truth {
-				return true
-			}
-		}
-		return false
-	}
-	type ev struct {
-		what string
-		in   ssa.Instruction
-	}
-	byCase := map[int64][]ev{}
-	allInstrs(fn, func(in ssa.Instruction) {
-		cs := caseOf(in.Block())
-		if cs < 0 {
 			return
 		}
-		a := callArgs(in)
-		switch {
-		case isCallTo(in, expAdd):
-			w := "exp.Add(?)"
-			if a[0] == nNode {
-				w = "exp.Add(n)"
-				if !aliveGuard(in.Block(), nNode) {
-					w = "exp.Add(n) UNGUARDED"
+		want := func(construct string, cond bool, kind string, doc string, args ...string) {
+			m, tot := cnt(kind, args...)
+			w := 0
+			if cond {
+				w = 1
+			}
+			a.check(cs+construct, m == w && tot == w, doc, fmt.Sprintf("%d matching of %d %s event(s), expected %d", m, tot, kind, w), o)
+		}
+		a.check(cs+"flags consulted", kX && kE, "each policy is touched only under its configuration flag", "a flag is not consulted on this path", o)
+		a.check(cs+"not aborted", !o.Panic, "a known task reason is handled without panic", "panic", o)
+		evictCb := func(kind string, idx int) bool {
+			for _, e := range allEvents(o, kind) {
+				if len(e.Args) <= idx {
+					return false
+				}
+				cl := r.ps.closures[e.Args[idx]]
+				if cl == nil || cl.bound == nil || origin(cl.bound) != origin(evict) || cl.recv != "param:"+pname(fn.Params[0]) {
+					return false
 				}
 			}
-			if !flagGuard(in.Block(), "withExpiration", true) {
-				w += " NOFLAG"
+			return true
+		}
+		switch reason {
+		case addR:
+			want("exp.Add(n)", kX && wX && kA && alive, "ExpAdd", "an added node is scheduled iff expiration is on and the node is still alive", n)
+			a.check(cs+"exp.Add(n) alive-guarded", !(kX && wX) || kA, "liveness of the node is tested before it is scheduled", "Alive(n) not tested", o)
+			want("exp.Delete none", false, "ExpDelete", "an add task unschedules nothing")
+			want("policy.add(n)", kE && wE, "PolicyAdd", "an added node enters the eviction policy iff eviction is on", n)
+			a.check(cs+"policy.add evictor", evictCb("PolicyAdd", 1), "the eviction callback handed to the policy is cache.evictNode", "other callback", o)
+			want("no policy.update/delete", false, "PolicyUpdate", "an add task does not transplant")
+			want("no policy.delete", false, "PolicyDelete", "an add task does not unlink")
+			want("no report", false, "AsyncNotify", "an add task reports no deletion")
+		case updR:
+			m, tot := cnt("ExpDelete", old)
+			w := 0
+			if kX && wX {
+				w = 1
 			}
-			byCase[cs] = append(byCase[cs], ev{w, in})
-		case isCallTo(in, expDel):
-			w := "exp.Delete(?)"
-			if a[0] == nNode {
-				w = "exp.Delete(n)"
-			} else if a[0] == nOld {
-				w = "exp.Delete(old)"
-			}
-			if !flagGuard(in.Block(), "withExpiration", true) {
-				w += " NOFLAG"
-			}
-			byCase[cs] = append(byCase[cs], ev{w, in})
-		case isCallTo(in, pAdd):
-			w := "policy.add(?)"
-			if a[0] == nNode && boundMethod(a[1]) == origin(evict) {
-				w = "policy.add(n)"
-			}
-			if !flagGuard(in.Block(), "withEviction", true) {
-				w += " NOFLAG"
-			}
-			byCase[cs] = append(byCase[cs], ev{w, in})
-		case isCallTo(in, pUpd):
-			w := "policy.update(?)"
-			if a[0] == nNode && a[1] == nOld && boundMethod(a[2]) == origin(evict) {
-				w = "policy.update(n,old)"
-			}
-			if !flagGuard(in.Block(), "withEviction", true) {
-				w += " NOFLAG"
-			}
-			byCase[cs] = append(byCase[cs], ev{w, in})
-		case isCallTo(in, pDel):
-			w := "policy.delete(?)"
-			if a[0] == nNode {
-				w = "policy.delete(n)"
-			}
-			if !flagGuard(in.Block(), "withEviction", true) {
-				w += " NOFLAG"
-			}
-			byCase[cs] = append(byCase[cs], ev{w, in})
-		case isCallTo(in, notify):
-			who := "?"
-			k, isK := a[0].(*ssa.Call)
-			v, isV := a[1].(*ssa.Call)
-			if isK && isV && invokeName(k) == "Key" && invokeName(v) == "Value" && k.Call.Value == v.Call.Value {
-				if k.Call.Value == nNode {
-					who = "n"
-				} else if k.Call.Value == nOld {
-					who = "old"
+			a.check(cs+"exp.Delete(old)", m == w && tot == w, "the replaced node is unscheduled iff expiration is on (and nothing else is)", fmt.Sprintf("%d/%d", m, tot), o)
+			want("exp.Add(n)", kX && wX && kA && alive, "ExpAdd", "the replacing node is scheduled iff expiration is on and it is still alive", n)
+			a.check(cs+"exp.Add(n) alive-guarded", !(kX && wX) || kA, "liveness of the node is tested before it is scheduled", "Alive(n) not tested", o)
+			// order: unschedule before schedule
+			di, ai := -1, -1
+			for i, e := range o.S.trace {
+				if e.Kind == "ExpDelete" {
+					di = i
+				}
+				if e.Kind == "ExpAdd" && ai < 0 {
+					ai = i
 				}
 			}
-			cause := "?"
-			if sameField(fieldOf(a[2]), dc) {
-				cause = "task.cause"
+			if di >= 0 && ai >= 0 {
+				a.check("update: unschedule ≺ schedule", di < ai, "the old node's timer is removed before the new node's timer is added", "order reversed", o)
 			}
-			// the notification must not be conditional on configuration flags
-			cond := ""
-			if flagGuard(in.Block(), "withExpiration", true) || flagGuard(in.Block(), "withEviction", true) {
-				cond = " CONDITIONAL"
-			}
-			byCase[cs] = append(byCase[cs], ev{fmt.Sprintf("notify(%s,%s)%s", who, cause, cond), in})
+			want("policy.update(n,old)", kE && wE, "PolicyUpdate", "the replacing node takes the old node's place in the eviction policy iff eviction is on", n, old)
+			a.check(cs+"policy.update evictor", evictCb("PolicyUpdate", 2), "the eviction callback handed to the policy is cache.evictNode", "other callback", o)
+			want("no policy.add", false, "PolicyAdd", "an update task does not add")
+			want("no policy.delete", false, "PolicyDelete", "an update task does not unlink")
+			want("notify(old,task.cause)", true, "AsyncNotify", "the replaced entry is reported exactly once with the task's cause, whatever the configuration", "Key("+old+")", "Value("+old+")", causeT)
+		case delR:
+			want("exp.Delete(n)", kX && wX, "ExpDelete", "the deleted node is unscheduled iff expiration is on", n)
+			want("no exp.Add", false, "ExpAdd", "a delete task schedules nothing")
+			want("policy.delete(n)", kE && wE, "PolicyDelete", "the deleted node leaves the eviction policy iff eviction is on", n)
+			want("no policy.add", false, "PolicyAdd", "a delete task does not add")
+			want("no policy.update", false, "PolicyUpdate", "a delete task does not transplant")
+			want("notify(n,task.cause)", true, "AsyncNotify", "the deleted entry is reported exactly once with the task's cause, whatever the configuration", "Key("+n+")", "Value("+n+")", causeT)
 		}
-	})
-	want := map[int64][]string{
-		addR: {"exp.Add(n)", "policy.add(n)"},
-		updR: {"exp.Delete(old)", "exp.Add(n)", "policy.update(n,old)", "notify(old,task.cause)"},
-		delR: {"exp.Delete(n)", "policy.delete(n)", "notify(n,task.cause)"},
+		m, tot := cnt("PutTask", t)
+		a.check("task recycled", m == 1 && tot == 1, "every handled task is cleared and returned to the pool", fmt.Sprintf("%d/%d PutTask", m, tot), o)
 	}
-	names := map[int64]string{addR: "add", updR: "update", delR: "delete"}
-	for cs, ws := range want {
-		got := byCase[cs]
-		var gs []string
-		for _, g := range got {
-			gs = append(gs, g.what)
-		}
-		for _, w := range ws {
-			cnt := 0
-			for _, g := range gs {
-				if g == w {
-					cnt++
-				}
-			}
-			cx.R.Check(cnt == 1, rule, name, "case "+names[cs]+": "+w, cx.P.Pos(fn.Pos()), fmt.Sprintf("exactly one %s in the %s case (found events %v)", w, names[cs], gs))
-		}
-		for _, g := range got {
-			if !contains(ws, g.what) {
-				cx.R.Violate(rule, name, "case "+names[cs]+": unexpected "+g.what, cx.P.where(g.in), "unexpected or wrongly guarded policy effect in the "+names[cs]+" case: "+g.what)
-			}
-		}
-	}
-	// order inside update: unschedule old before scheduling new (both use the same list links only for distinct nodes; order is required by onAccess's NextExp test)
-	var dOld, aNew ssa.Instruction
-	for _, g := range byCase[updR] {
-		if g.what == "exp.Delete(old)" {
-			dOld = g.in
-		}
-		if g.what == "exp.Add(n)" {
-			aNew = g.in
-		}
-	}
-	if dOld != nil && aNew != nil {
-		cx.R.Check(instrDominates(dOld, aNew), rule, name, "update: unschedule ≺ schedule", cx.P.where(aNew), "the old node's timer is removed before the new node's timer is added")
-	}
-	// the nil task is ignored, every other path returns the task to the pool or panics
-	put := cx.P.Func("", "cache", "putTask")
-	if put != nil {
-		cut := map[edge]bool{}
-		allInstrs(fn, func(in ssa.Instruction) {
-			if ifi, ok := in.(*ssa.If); ok {
-				if x, isEq, ok := nilCmp(ifi.Cond); ok && x == ssa.Value(fn.Params[1]) {
-					idx := 0
-					if !isEq {
-						idx = 1
-					}
-					cut[edge{ifi.Block(), idx}] = true
-				}
-			}
-		})
-		ok, w := MustFollowPt(Pt{fn.Blocks[0], 0}, func(in ssa.Instruction) bool { return isCallTo(in, put) }, exitReturn, cut)
-		cx.R.Check(ok, rule, name, "task recycled", cx.P.Pos(fn.Pos()), "every handled task is cleared and returned to the pool", w...)
-	}
+	a.check("exhaustive", seen[addR] > 0 && seen[updR] > 0 && seen[delR] > 0, "the reason switch handles add, update and delete", fmt.Sprint(seen), nil)
+	a.flush()
 }
 
 // ruleC05LockCtx: policy / deque / wheel / node link state is written only with the eviction lock held.
 func ruleC05LockCtx(cx *Ctx) {
 	const rule = "C05.lockctx"
-	cx.R.Rule(rule, 40, "every write of policy fields, deque fields, timer-wheel fields and node link/queue fields, and every consumption of the read and write buffers, executes with the eviction lock held (constructors of still unpublished objects exempt; the drainBuffers token hand-off is modelled)")
+	cx.R.Rule(rule, 13, "every write of policy fields, deque fields, timer-wheel fields and node link/queue fields, and every consumption of the read and write buffers, executes with the eviction lock held (constructors of still unpublished objects exempt; the drainBuffers token hand-off is modelled)")
 	lc := lockContext(cx)
 	if lc == nil {
 		cx.R.Undecided(rule, "*", "lock context", "-", "eviction-lock context analysis unavailable")
@@ -258,10 +200,10 @@ func ruleC05LockCtx(cx *Ctx) {
 			continue
 		}
 		for i := 0; i < st.NumFields(); i++ {
-			if tf[1] == "sketch" && st.Field(i).Name() == "isInitialized" {
+			if tf[1] == "sketch" && fname(st.Field(i)) == "isInitialized" {
 				continue // atomic flag read lock-free by readers
 			}
-			protected[tf[1]+"."+st.Field(i).Name()] = true
+			protected[tf[1]+"."+fname(st.Field(i))] = true
 		}
 	}
 	linkMethods := map[string]bool{"SetPrev": true, "SetNext": true, "SetPrevExp": true, "SetNextExp": true, "SetQueueType": true, "MakeWindow": true, "MakeMainProbation": true, "MakeMainProtected": true}
@@ -276,15 +218,15 @@ func ruleC05LockCtx(cx *Ctx) {
 			switch x := in.(type) {
 			case *ssa.Store:
 				if f := fieldOf(x.Addr); f != nil {
-					if tn := structNameOfAddr(x.Addr); protected[tn+"."+f.Name()] {
-						what = "store to " + tn + "." + f.Name()
+					if tn := structNameOfAddr(x.Addr); protected[tn+"."+fname(f)] {
+						what = "store to " + tn + "." + fname(f)
 					}
 				}
 				// stores into the sketch table / wheel slices
 				if ia, ok := x.Addr.(*ssa.IndexAddr); ok {
 					if f := fieldOf(ia.X); f != nil {
-						if tn := structNameOfAddr(stripLoad(ia.X)); protected[tn+"."+f.Name()] {
-							what = "store into " + tn + "." + f.Name() + "[...]"
+						if tn := structNameOfAddr(stripLoad(ia.X)); protected[tn+"."+fname(f)] {
+							what = "store into " + tn + "." + fname(f) + "[...]"
 						}
 					}
 				}
